@@ -46,6 +46,7 @@ func genC13(g *gen, seed int64) *Program {
 	p.Cfg.Policy = g.pick(3)
 	p.Cfg.NetEager = g.p(0.6)
 	p.Cfg.TLS = g.p(0.5)
+	p.Cfg.Host6 = !p.Cfg.TLS && g.p(0.3)
 	g.k.pErr = 0.2
 	n := 1 + g.pick(2)
 	for id := 0; id < n; id++ {
@@ -199,6 +200,12 @@ func oracleC13(s *Sim) {
 		if v.hStart == nil {
 			continue
 		}
+		// the context of the client's stream is the caller's own: what the
+		// credentials contributed to the request is not in it (it would travel
+		// on to whatever the application uses that context for next)
+		if v.newstream != nil && r.Creds != nil && !r.Creds.Fail && v.newstream.Flags["ctx-md-has-creds"] != "" {
+			v.fail("C13", "stream-context-carries-credentials|"+shape, "stream.Context() has outgoing metadata %s, which is what the per-RPC credentials supplied, not what the caller attached", v.newstream.Flags["ctx-md-has-creds"])
+		}
 		// peer as the handler sees it
 		hp := v.hStart.Flags["peer"]
 		switch r.Transport {
@@ -238,6 +245,8 @@ func oracleC13(s *Sim) {
 				if tls {
 					host = "sim.test:443"
 					wantAuth = "|tls("
+				} else if s.prog.Cfg.Host6 {
+					host = "[fd00::2]:80"
 				}
 				if !strings.HasPrefix(cp, "tcp/"+host) || !strings.Contains(cp, wantAuth) {
 					v.fail("C13", "caller-peer|"+shape, "grpc.Peer target after %s is %q, expected address %s and TLS info: %v", last.Op, cp, host, tls)
